@@ -39,6 +39,20 @@ def r20_1(ctx):
     fi = f("run_preprocess_steps")
     calls = [call_name(n.value) for n in fi.node.body if isinstance(n, ast.Expr) and isinstance(n.value, ast.Call) and call_name(n.value).startswith("self.")]
     ctx.check("step order", calls == ["self.preprocess_macros", "self.preprocess_shortcode", "self.postprocess_shortcode"], "macros, shortcode, postprocess", str(calls), fn_where(idx, fi))
+    # the shortcode that is resolved is the file the preprocessor was created for: the constructor's argument is stored once and the
+    # combining step reads it from there (nobody re-binds it, e.g. to the configured default)
+    init = f("__init__")
+    iparams = {a.arg for a in init.node.args.args[1:]}
+    cfg = {t.attr: n.value.id for n in ast.walk(init.node) if isinstance(n, (ast.Assign, ast.AnnAssign)) and n.value is not None and isinstance(n.value, ast.Name) and n.value.id in iparams
+           for t in (n.targets if isinstance(n, ast.Assign) else [n.target]) if isinstance(t, ast.Attribute) and U(t.value) == "self"}
+    ctx.check("the constructor stores the shortcode path it is given", len(cfg) >= 1, "self.<attr> = <parameter>", str(cfg), fn_where(idx, init))
+    rebinds = [f"{g.qual}:{n.lineno} {U(n)[:70]}" for g in idx.funcs.values() if g.qual != init.qual and ".Tests" not in g.module for n in ast.walk(g.node)
+               if isinstance(n, (ast.Assign, ast.AugAssign, ast.AnnAssign)) for t in (n.targets if isinstance(n, ast.Assign) else [n.target])
+               if isinstance(t, ast.Attribute) and t.attr in cfg and (g.cls == PP or "preprocessor" in U(t.value).lower())]
+    ctx.check("nobody re-binds the preprocessor's input path after construction", not rebinds, "stored by the constructor only", "; ".join(rebinds[:2]) or "constructor only", fn_where(idx, init))
+    fs_ = f("preprocess_shortcode")
+    opened = [U(n.args[0]) for n in ast.walk(fs_.node) if isinstance(n, ast.Call) and call_name(n) == "open" and n.args]
+    ctx.check("the combining step reads the shortcode from the stored path", any(o == f"self.{a}" for o in opened for a in cfg), f"open(self.{next(iter(cfg), '?')})", str(opened), fn_where(idx, fs_))
     # every path through the driver runs all three steps: no exit before the last step, no step under a condition
     ps = paths_of(fi.node)
     steps = ("preprocess_macros", "preprocess_shortcode", "postprocess_shortcode")
@@ -105,6 +119,60 @@ def r20_1(ctx):
     ctx.check("InputFile names", got == exp, str(exp), str(got), "rzilcompiler/Configuration.py")
 
 
+def patch_merge_valuation(ctx):
+    """patch_macros evaluated as a whole on small macro / patch sets (the patch file is a stub): every `#define` line of the patch file is a
+    patch - also one without replacement text (an empty object-like macro is a definition like any other) -, a later patch of a name
+    overrides an earlier one, the first original of a patched name is replaced and later ones dropped, unmatched patches are added"""
+    from sa.absint import AObj, Interp, Opaque, OpaqueMethod
+
+    idx = get_index(ctx.env)
+    fi = idx.func(f"{PP}.patch_macros")
+    scenarios = [
+        ("patch with and without replacement text, duplicate patch, user-only patch",
+         ["#define fA(X) \\\n", "   (X+1)\n", "#define fB\n", "// c\n", "#define fNEW(Y) Y\n", "#define fA(X) (X+2)\n"],
+         ["#define fA(X) old", "#define fC 3", "#define fB 7", "#define fA(X) old2"]),
+        ("empty function-like and empty object-like patches", ["#define fF(A, B)\n", "#define G\n", "\n", "#define H 1\n"], ["#define G g", "#define fF(A, B) body", "#define K k", "#define G g2"]),
+        ("no patch applies", ["// nothing\n"], ["#define A 1", "#define B 2"]),
+    ]
+
+    def oracle(patch_lines, macros):
+        text = re.sub(r"\\\s*\n", "", "".join(patch_lines))
+        patches = {}
+        for ln in text.split("\n"):
+            m = re.match(r"#define\s+(\w+)", ln)
+            if m:
+                patches[m.group(1)] = ln
+        body, done = [], set()
+        for mac in macros:
+            nm = re.match(r"#define\s+(\w+)", mac).group(1)
+            if nm in done:
+                continue
+            if nm in patches:
+                body.append(patches.pop(nm))
+                done.add(nm)
+            else:
+                body.append(mac)
+        return set(patches.values()), body
+
+    for name, patch_lines, macros in scenarios:
+        def hook(i, callee, a, k, t, patch_lines=patch_lines):
+            if t.startswith("Conf.get_path("):
+                return Opaque(t)
+            if isinstance(callee, OpaqueMethod) and callee.attr == "readlines":
+                return list(patch_lines)
+            if isinstance(callee, OpaqueMethod) and callee.attr == "read":
+                return "".join(patch_lines)
+            return NotImplemented
+        try:
+            outs = Interp(idx, call_hook=hook).explore(lambda i, macros=macros: i.call_function(fi, [list(macros)], self_obj=AObj(PP, {}, label="self")))
+        except Exception as e:  # the function left the fragment the interpreter reads: no verdict from this instance
+            ctx.need(False, f"patch_macros not evaluable: {type(e).__name__}: {e}")
+        extra, body = oracle(patch_lines, macros)
+        got = [o.value if o.kind == "return" else "RAISE" for o in outs]
+        ok = len(got) == 1 and isinstance(got[0], list) and set(got[0][:len(extra)]) == extra and got[0][len(extra):] == body
+        ctx.check(f"patch merge [{name}]", ok, f"{sorted(extra)} + {body}", str(got)[:300], fn_where(idx, fi))
+
+
 @rule("R20.2", "C20", "patch merge: patches and originals keyed by the same name regex; first occurrence replaced, later ones skipped, unmatched patches added", min_instances=6)
 def r20_2(ctx):
     idx = get_index(ctx.env)
@@ -128,6 +196,7 @@ def r20_2(ctx):
             if got != name:
                 bad.append(f"{pt!r} reads {got!r} out of {text!r}")
     ctx.check("one name regex for patches and originals", 1 <= len(name_pats) <= 2 and not bad, "every site extracts the macro name (the word behind #define) the same way", "; ".join(bad[:3]) or str(name_pats), w)
+    patch_merge_valuation(ctx)
     ps = paths_of(fi.node)
     loops = [e for p in ps for e in p.events if e.kind == "loop" and U(e.node[2]) == "macros"]
     ctx.need(loops, "patch_macros: loop over the original macros not found")
